@@ -169,11 +169,15 @@ pub fn scenarios(tier: Tier) -> Vec<Scenario> {
         Tier::Thorough => {
             for reg in 0..=3u8 {
                 for keep in [false, true] {
-                    add(1, 2, reg, keep, 3);
-                    add(2, 1, reg, keep, 3);
-                    add(2, 2, reg, keep, 2);
+                    add(1, 1, reg, keep, 3);
+                    add(1, 2, reg, keep, 2);
+                    add(2, 1, reg, keep, if reg == 0 { 2 } else { 1 });
+                }
+                if reg == 0 {
+                    add(2, 2, reg, true, 1);
                 }
             }
+            add(1, 2, 0, true, 3);
         }
     }
     v
